@@ -7,7 +7,7 @@ RULE = ("src/gsl/amplgsl.cc compiled against a stand-in funcadd.h and the system
         "value+derivs / value+derivs+hes with random dig masks, twice (determinism; random-valued functions after reseeding); oracle: no error => "
         "value, requested first and second partials are not NaN; first (second) partials agree with Ridders extrapolation of the same binding's "
         "values (first partials) within 1e-3 rel + 1000*err + 1e-8, a disagreement must reproduce at a neighbouring point; evaluation = one "
-        "function x 9 argument vectors (4 systematic with first argument 0,1,2,3 + 5 random) x 3 modes; non-trivial = >=1 derivative comparison or >=1 explicit error; distinct = distinct function names")
+        "function x 18 argument vectors (4 systematic with first argument 0,1,2,3, 9 with orders 1..3 and second argument -1,0,1, 5 random) + the integer-plateau probe x 3 modes; non-trivial = >=1 derivative comparison or >=1 explicit error; distinct = distinct function names")
 
 
 def builds():
